@@ -27,6 +27,14 @@ namespace matrix
 {
 namespace detail
 {
+// The determinant of the empty matrix is the empty product. adjugate needs
+// this for 1x1 matrices.
+template <typename T, typename S>
+T determinant(fcppt::math::matrix::object<T, 0, 0, S> const &)
+{
+  return fcppt::literal<T>(1);
+}
+
 template <typename T, typename S>
 T determinant(fcppt::math::matrix::object<T, 1, 1, S> const &_matrix)
 {
@@ -35,7 +43,8 @@ T determinant(fcppt::math::matrix::object<T, 1, 1, S> const &_matrix)
 
 template <typename T, fcppt::math::size_type N, typename S>
 std::enable_if_t<
-    !fcppt::math::matrix::has_dim<fcppt::math::matrix::object<T, N, N, S>, 1, 1>::value,
+    !fcppt::math::matrix::has_dim<fcppt::math::matrix::object<T, N, N, S>, 1, 1>::value &&
+        !fcppt::math::matrix::has_dim<fcppt::math::matrix::object<T, N, N, S>, 0, 0>::value,
     T>
 determinant(fcppt::math::matrix::object<T, N, N, S> const &_matrix)
 {
